@@ -376,7 +376,7 @@ def validate(traces):
             order.append(for_tlc(t))
         t['_u'] = uniq[key]
     order_ix = sorted(range(len(order)), key=lambda j: -len(order[j]['calls']))   # balance chunks
-    nchunks = max(1, min(C.NCPU, len(order) // 40))
+    nchunks = max(1, min(C.NCPU // 2, len(order) // 40))
     sched = [j for c in range(nchunks) for j in order_ix[c::nchunks]]
     verdicts, stats = C.validate_traces(
         'StoreTrace', [order[j] for j in sched], jvm=JVM, chunk=-(-len(sched) // nchunks),
@@ -444,25 +444,27 @@ def main(tier, replay):
     thorough = tier == 'thorough'
 
     # 1. exhaustive model checking: one configuration per data type x default/no default
-    steps = 8 if thorough else 6
     jobs = []
+
+    def job(dtn, defaults, steps, tails, indices={0, 1, 2, 3}, count=True):
+        jobs.append(dict(Indices=indices, Tails=tails, MapKeys={0, 1}, IntVals={1, 2},
+                         DataTypes={dtn}, Defaults=defaults, MaxSteps=steps, CountSteps=count,
+                         KeepHist=False))
     for dtn in DTS:
-        for defaults in ({99}, {0, 1, 2} if thorough else {0}):
-            jobs.append(dict(Indices={0, 1, 2, 3} if thorough or dtn != 'mapper' else {0, 1, 3},
-                             Tails={0, 1} if thorough else {0}, MapKeys={0, 1}, IntVals={1, 2},
-                             DataTypes={dtn}, Defaults=defaults, MaxSteps=steps, CountSteps=True,
-                             KeepHist=False))
+        for defaults in ({99}, {0, 1} if thorough else {0}):
+            if not thorough:       # histories of <= 6 calls
+                job(dtn, defaults, 6, {0}, {0, 1, 3} if dtn == 'mapper' else {0, 1, 2, 3})
+            else:                  # <= 7 calls with two key tails, <= 8 calls with one
+                job(dtn, defaults, 7, {0, 1})
+                job(dtn, defaults, 8, {0})
     if thorough:     # the complete reachable state space of the value stores (no history bound)
         for dtn in DTS[:-1]:
-            jobs.append(dict(Indices={0, 1, 2, 3}, Tails={0, 1}, MapKeys={0}, IntVals={1, 2},
-                             DataTypes={dtn}, Defaults={99, 0, 1}, MaxSteps=0, CountSteps=False,
-                             KeepHist=False))
-
+            job(dtn, {99, 0}, 0, {0}, count=False)
     def mc(const):
         return C.run_tlc('Store', C.cfg(constants=const, invariants=INVARIANTS,
                                         properties=PROPERTIES,
                                         constraints=['StepBound'] if const['CountSteps'] else []),
-                         coverage=True, workers=2)
+                         coverage=True, workers=4 if thorough else 2)
     # 2. behaviour generation (runs concurrently with model checking)
     tiny = dict(Indices={0, 2}, Tails={0}, MapKeys={0}, IntVals={1}, MaxSteps=4 if thorough else 3,
                 CountSteps=True, KeepHist=True)
@@ -470,7 +472,7 @@ def main(tier, replay):
     if thorough:
         gens.append((dict(tiny, Indices={0, 1, 3}, MapKeys={0, 1}, MaxSteps=4, DataTypes={'mapper'},
                           Defaults={99}), None))
-    nsim = 3000 if thorough else 300
+    nsim = 1500 if thorough else 150
     simc = dict(Indices={0, 1, 2, 3}, Tails={0, 1}, MapKeys={0, 1}, IntVals={1, 2},
                 DataTypes=set(DTS), Defaults={99, 0, 1, 2}, MaxSteps=14, CountSteps=True,
                 KeepHist=True)
@@ -505,12 +507,15 @@ def main(tier, replay):
 
     rng_gen = random.Random(C.seed() + 1414)
     cap = 12000 if thorough else 900
+    cap_sim = 4000 if thorough else 350
     behaviours = []
     gen_counts = []
     for (b, exhaustive, const) in results[len(jobs):]:
         n_all = len(b)
-        if exhaustive and len(b) > cap:
-            b = rng_gen.sample(b, cap)
+        # (the simulator also evaluates EmitBehaviour on every candidate successor of the
+        #  last state: ~25 histories per simulated trace that differ in the last call)
+        if len(b) > (cap if exhaustive else cap_sim):
+            b = rng_gen.sample(b, cap if exhaustive else cap_sim)
         gen_counts.append({'data_types': sorted(const['DataTypes']), 'exhaustive': exhaustive,
                            'max_steps': const['MaxSteps'], 'generated': n_all, 'replayed': len(b)})
         behaviours += b
